@@ -644,6 +644,8 @@ class PrecipitateModel (PrecipitateBase):
                 self.PSDXalpha[p] = np.zeros((self.PBM[p].bins + 1, self.numberOfElements))
                 self.PSDXbeta[p] = np.zeros((self.PBM[p].bins + 1, self.numberOfElements))
                 self.growth[p] = np.zeros(self.PBM[p].bins+1)
+                #For binary systems, mark every size class as unstable so that the growth rate is not evaluated on the emptied table
+                self.RdrivingForceIndex[p] = self.PBM[p].bins
                 continue
             self.PBM[p].UpdatePBMEuler(t, x[p])
             change, addedIndices = self.PBM[p].adjustSizeClassesEuler(all(self.growth[p] < 0))
